@@ -16,7 +16,7 @@
 (* property texts leave open, plus named deviations used only to classify  *)
 (* known findings.  See Modes in JOutcome.                                 *)
 (***************************************************************************)
-EXTENDS JV, JLibStr, JLibNum
+EXTENDS JV, JLibStr, JLibNum, JRegex
 
 Ok(v, st)   == [x |-> "ok", r |-> v, st |-> st]
 Er(kind, st)== [x |-> "err", k |-> kind, st |-> st]
@@ -120,7 +120,7 @@ ArgFits(arg, p) ==
 ---------------------------------------------------------------------------
 (* The evaluator                                                            *)
 
-RECURSIVE Eval(_, _, _, _), EvalList(_, _, _, _, _, _), MapStep(_, _, _, _, _, _),
+RECURSIVE Eval(_, _, _, _), EvalList(_, _, _, _, _, _), ReplByFn(_, _, _, _, _, _, _), MapStep(_, _, _, _, _, _),
           PathFrom(_, _, _, _, _), NameOn(_, _, _), ApplyFilters(_, _, _, _, _),
           FilterItems(_, _, _, _, _, _, _), Call(_, _, _), CallBuiltin(_, _, _, _),
           EvalPairsGroup(_, _, _, _), Descend(_), EvalBlock(_, _, _, _, _, _),
@@ -381,6 +381,26 @@ RECURSIVE MergeInto(_, _, _), DeleteAll(_, _, _)
 MergeInto(o, m, i) == IF i > Len(m) THEN o ELSE MergeInto(ObjPut(o, m[i][1], m[i][2]), m, i + 1)
 DeleteAll(o, ks, i) == IF i > Len(ks) THEN o ELSE DeleteAll(ObjDel(o, ks[i].s), ks, i + 1)
 
+\* ---- regular expressions (C17): consumers of the engine's match list ----
+
+NoEngine == [k |-> "None"]
+EngineLookup(st, re, subj) ==
+    LET idx == {i \in 1..Len(st.eng) : st.eng[i].re = re /\ st.eng[i].subj = subj}
+    IN  IF idx = {} THEN NoEngine ELSE st.eng[CHOOSE i \in idx : TRUE]
+
+kMatch == <<109, 97, 116, 99, 104>>   kStart == <<115, 116, 97, 114, 116>>   kEnd == <<101, 110, 100>>
+kGroups == <<103, 114, 111, 117, 112, 115>>   kNext == <<110, 101, 120, 116>>   kIndex == <<105, 110, 100, 101, 120>>
+GroupArr(subj, m) == Arr([g \in 1..Len(GroupTexts(subj, m)) |-> Str(GroupTexts(subj, m)[g])])
+\* the i-th match as the object a regex function returns (no value past the last match)
+MatchObject(E, subj, i) ==
+    IF i > Len(E.ms) THEN Undef
+    ELSE Obj(ObjFromPairs(<< <<kMatch, Str(MatchText(subj, E.ms[i]))>>, <<kStart, IntV(E.bi[i][1])>>, <<kEnd, IntV(E.bi[i][2])>>,
+                             <<kGroups, GroupArr(subj, E.ms[i])>>,
+                             <<kNext, [t |-> "fn", k |-> "matchnext", eng |-> E, subj |-> subj, i |-> i + 1]>> >>))
+\* the object $match returns and a replacement function receives
+MatchInfo(E, subj, i) ==
+    Obj(ObjFromPairs(<< <<kMatch, Str(MatchText(subj, E.ms[i]))>>, <<kIndex, IntV(E.bi[i][1])>>, <<kGroups, GroupArr(subj, E.ms[i])>> >>))
+
 \* ---- calls (C12) ----
 
 \* S3 for typed lambdas: returns [x |-> "ok", rs |-> args'] or an argument error
@@ -445,6 +465,13 @@ Call(fn, args, cx) ==
                ELSE Call(fn.pf, A.rs, [st |-> A.st, site |-> fn.c, hasSite |-> FALSE])
       [] fn.k = "chain" -> CallSeq(fn.fns, 1, IF args = <<>> THEN Undef ELSE args[1], st)
       [] fn.k = "builtin" -> CallBuiltin(fn.nm, args, cx.site, cx)
+      \* R4: a regex literal applied to a string: the first match object, whose `next` enumerates the rest
+      [] fn.k = "regex" ->
+           IF args = <<>> \/ ~IsStr(args[1]) THEN Ok(Undef, st)
+           ELSE LET E == EngineLookup(st, fn.s, args[1].s) IN
+                IF "ms" \notin DOMAIN E THEN Top("no engine observation for this pattern and subject", st)
+                ELSE Ok(MatchObject(E, args[1].s, 1), st)
+      [] fn.k = "matchnext" -> Ok(MatchObject(fn.eng, fn.subj, fn.i), st)
       [] fn.k = "transform" ->
            IF Len(args) # 1 THEN Er("ArgCount", st)
            ELSE IF IsUndef(args[1]) THEN Ok(Undef, st)
@@ -602,6 +629,53 @@ LibResult(R, st) ==
       [] R.ok = "top" -> Top(R.why, st)
 BadArgs(st) == Er("AnyOrUndef", st)
 
+ReplByFn(fn, E, subj, i, n, acc, st) ==
+    IF i > n THEN [x |-> "ok", rs |-> acc, st |-> st]
+    ELSE LET R == Call(fn, <<MatchInfo(E, subj, i)>>, [st |-> st, site |-> Undef, hasSite |-> FALSE])
+         IN  IF R.x # "ok" THEN R
+             ELSE IF ~IsStr(R.r) THEN Er("Any", R.st)
+             ELSE ReplByFn(fn, E, subj, i + 1, n, Append(acc, R.r.s), R.st)
+
+\* nm \in {"match", "contains", "split", "replace"} with a regex pattern; a = arguments after context insertion
+RegexBuiltin(nm, a, st) ==
+    LET n == Len(a)
+        opt(i) == n >= i /\ ~IsUndef(a[i])
+        lim(i) == NumTrunc(a[i])
+    IN
+    IF ~IsStr(a[1]) THEN BadArgs(st)
+    ELSE IF a[2].k # "regex" THEN Top("user-defined matcher function", st)
+    ELSE LET subj == a[1].s
+             E == EngineLookup(st, a[2].s, subj)
+    IN
+    IF "ms" \notin DOMAIN E THEN Top("no engine observation for this pattern and subject", st)
+    ELSE IF ~WellFormedMatches(E.ms, Len(subj)) THEN Top("engine observation is not a well-formed match list", st)
+    ELSE CASE
+       nm = "contains" -> IF n # 2 THEN BadArgs(st) ELSE Ok(Bool(E.ms # <<>>), st)
+    [] nm = "match" ->
+         IF n > 3 THEN BadArgs(st)
+         ELSE IF opt(3) /\ ~IsNum(a[3]) THEN BadArgs(st)
+         ELSE IF opt(3) /\ lim(3) < 0 THEN Er("Any", st)
+         ELSE LET k == IF opt(3) /\ lim(3) < Len(E.ms) THEN lim(3) ELSE Len(E.ms)
+              IN  Ok(Arr([i \in 1..k |-> MatchInfo(E, subj, i)]), st)
+    [] nm = "split" ->
+         IF n > 3 THEN BadArgs(st)
+         ELSE IF opt(3) /\ ~IsNum(a[3]) THEN BadArgs(st)
+         ELSE IF opt(3) /\ lim(3) < 0 THEN Er("Any", st)
+         ELSE LET parts == SplitByMatches(subj, E.ms, 1, 0)
+                  cut == IF opt(3) /\ lim(3) < Len(parts) THEN SubSeq(parts, 1, lim(3)) ELSE parts
+              IN  Ok(Arr([i \in 1..Len(cut) |-> Str(cut[i])]), st)
+    [] nm = "replace" ->
+         IF n < 3 \/ n > 4 THEN BadArgs(st)
+         ELSE IF ~(IsStr(a[3]) \/ IsFn(a[3])) THEN BadArgs(st)
+         ELSE IF opt(4) /\ ~IsNum(a[4]) THEN BadArgs(st)
+         ELSE IF opt(4) /\ lim(4) < 0 THEN Er("Any", st)
+         ELSE LET k == IF opt(4) /\ lim(4) < Len(E.ms) THEN lim(4) ELSE Len(E.ms)
+              IN  IF IsStr(a[3])
+                  THEN Ok(Str(ReplaceMatches(subj, E.ms, [i \in 1..k |-> ExpandTemplate(a[3].s, MatchText(subj, E.ms[i]), GroupTexts(subj, E.ms[i]))], 1, k, 0)), st)
+                  ELSE LET R == ReplByFn(a[3], E, subj, 1, k, <<>>, st)
+                       IN  IF R.x # "ok" THEN R ELSE Ok(Str(ReplaceMatches(subj, E.ms, R.rs, 1, k, 0)), R.st)
+
+
 CallBuiltin(nm, args0, site, cx) ==
     LET st == cx.st
         pre == CtxRule(nm, args0)
@@ -698,6 +772,7 @@ CallBuiltin(nm, args0, site, cx) ==
     [] nm = "error" -> IF n = 1 /\ IsStr(a[1]) THEN Er("Any", st) ELSE Er("Any", st)
     [] nm = "string" -> IF n # 1 THEN BadArgs(st)
                         ELSE LET S == Stringify(a[1]) IN IF S.ok THEN Ok(Str(S.s), st) ELSE Top("$string outside the model", st)
+    [] nm \in {"match", "contains", "split", "replace"} /\ n >= 2 /\ IsFn(a[2]) -> RegexBuiltin(nm, a, st)
     [] nm \in StrFnNames -> LibResult(StrCall(nm, a, st.md), st)
     [] nm \in NumFnNames -> LibResult(NumCall(nm, a, st.md), st)
     [] OTHER -> Top("unmodelled built-in", st)
@@ -798,7 +873,7 @@ Eval(node, ctx, f, st) ==
                      IF ~IsFn(B.r) THEN Er("NonCallableApply", B.st)
                      ELSE IF IsFn(A.r) THEN Ok([t |-> "fn", k |-> "chain", fns |-> <<A.r, B.r>>], B.st)
                      ELSE Call(B.r, <<A.r>>, [st |-> B.st, site |-> ctx, hasSite |-> FALSE])))
-      [] node.k = "Regex" -> Top("regular expressions are modelled in JRegex", st)
+      [] node.k = "Regex" -> Ok([t |-> "fn", k |-> "regex", s |-> node.s], st)
       [] OTHER -> Top("unmodelled node", st)
 
 =============================================================================
